@@ -303,4 +303,298 @@ theorem handshake_gate_in_code : Gen.ReadProtocolHandshakeShape.take 5 =
      "if msg.Code == discMsg { … return nil, reason[0] }",
      "if msg.Code != handshakeMsg { … return nil, fmt.Errorf(\"expected handshake, got %x\", msg.Code) }"] := by decide
 
+/-! ### discovery datagrams -/
+
+/-- Every datagram shorter than hash + signature + one packet-type byte is refused before anything is sliced. -/
+theorem packet_too_small_rejected (D : DCrypto) (buf : Bytes) (h : buf.length < headSize + 1) :
+    decodePacket D buf = .reject .tooSmall := by
+  unfold decodePacket; rw [if_pos h]
+
+/-- the three slices of a datagram that is long enough -/
+theorem packet_slices (buf : Bytes) (h : ¬ buf.length < headSize + 1) :
+    goSlice buf 0 macSize = .ok (buf.take macSize) ∧
+    goSlice buf macSize headSize = .ok ((buf.drop macSize).take (headSize - macSize)) ∧
+    goSliceFrom buf headSize = .ok (buf.drop headSize) ∧ goSliceFrom buf macSize = .ok (buf.drop macSize) := by
+  have e1 : headSize = 97 := rfl
+  have e2 : macSize = 32 := rfl
+  refine ⟨?_, ?_, ?_, ?_⟩
+  · rw [goSlice_ok _ _ _ (Nat.zero_le _) (by omega)]; simp
+  · rw [goSlice_ok _ _ _ (by omega) (by omega)]
+  · unfold goSliceFrom; rw [goSlice_ok _ _ _ (by omega) (Nat.le_refl _)]
+    rw [List.take_of_length_le (by rw [List.length_drop]; omega)]
+  · unfold goSliceFrom; rw [goSlice_ok _ _ _ (by omega) (Nat.le_refl _)]
+    rw [List.take_of_length_le (by rw [List.length_drop]; omega)]
+
+/-- `decodePacket` on a datagram that is long enough, without the bounds checks -/
+theorem decodePacket_long (D : DCrypto) (buf : Bytes) (h : ¬ buf.length < headSize + 1) :
+    decodePacket D buf =
+      if buf.take macSize ≠ D.hash (buf.drop macSize) then .reject .badHash
+      else match D.recover (D.hash (buf.drop headSize)) ((buf.drop macSize).take (headSize - macSize)) with
+        | none => .reject .badSig
+        | some fromID =>
+          if (buf.drop headSize).getD 0 0 ∈ knownTypes then
+            match D.body ((buf.drop headSize).getD 0 0) ((buf.drop headSize).drop 1) with
+            | none => .reject .badBody
+            | some req => .ok ((buf.drop headSize).getD 0 0) fromID (buf.take macSize) req
+          else .reject .unknownType := by
+  obtain ⟨s1, s2, s3, s4⟩ := packet_slices buf h
+  have e1 : headSize = 97 := rfl
+  unfold decodePacket
+  rw [if_neg h, s1, s2, s3, s4]
+  simp only []
+  rw [goIndex_ok _ 0 (by rw [List.length_drop]; omega)]
+  unfold goSliceFrom
+  rw [goSlice_ok _ 1 _ (by rw [List.length_drop]; omega) (Nat.le_refl _)]
+  have ht : List.take ((List.drop headSize buf).length - 1) (List.drop 1 (List.drop headSize buf))
+      = List.drop 1 (List.drop headSize buf) := List.take_of_length_le (by simp; omega)
+  rw [ht]
+  rfl
+
+/-- For every byte string `decodePacket` returns a request or an error: no slice expression, not `sigdata[0]`, can fail. -/
+theorem decode_total (D : DCrypto) (buf : Bytes) : decodePacket D buf ≠ .panic := by
+  by_cases h : buf.length < headSize + 1
+  · rw [packet_too_small_rejected D buf h]; intro h; cases h
+  · rw [decodePacket_long D buf h]
+    split
+    · intro h; cases h
+    · split
+      · intro h; cases h
+      · split
+        · split <;> (intro h; cases h)
+        · intro h; cases h
+
+/-- A datagram whose first 32 bytes are not the hash of the rest is refused — before signature recovery, before the
+    packet type is looked at, before RLP decoding. -/
+theorem bad_hash_rejected (D : DCrypto) (buf : Bytes) (h : ¬ buf.length < headSize + 1)
+    (hh : buf.take macSize ≠ D.hash (buf.drop macSize)) : decodePacket D buf = .reject .badHash := by
+  rw [decodePacket_long D buf h, if_pos hh]
+
+/-- A packet-type byte other than ping / pong / findnode / neighbors is refused (never decoded, never handled). -/
+theorem unknown_type_rejected (D : DCrypto) (buf : Bytes) (ptype : Nat) (fromID hash : Bytes) (req : Req)
+    (h : decodePacket D buf = .ok ptype fromID hash req) : ptype ∈ knownTypes := by
+  by_cases hs : buf.length < headSize + 1
+  · rw [packet_too_small_rejected D buf hs] at h; cases h
+  · rw [decodePacket_long D buf hs] at h
+    split at h
+    · cases h
+    · split at h
+      · cases h
+      · split at h
+        · rename_i hk
+          split at h
+          · cases h
+          · cases h; exact hk
+        · cases h
+
+/-- What an accepted datagram has gone through: long enough, the hash in front matches, a public key was recovered from
+    the signature over the hash of type + body, the type is one of the four, the body decoded as that type's request. -/
+theorem accepted_packet_wellformed (D : DCrypto) (buf : Bytes) (ptype : Nat) (fromID hash : Bytes) (req : Req)
+    (h : decodePacket D buf = .ok ptype fromID hash req) :
+    headSize + 1 ≤ buf.length ∧ hash = buf.take macSize ∧ buf.take macSize = D.hash (buf.drop macSize) ∧
+    D.recover (D.hash (buf.drop headSize)) ((buf.drop macSize).take sigSize) = some fromID ∧
+    ptype = (buf.drop headSize).getD 0 0 ∧ ptype ∈ knownTypes ∧ D.body ptype ((buf.drop headSize).drop 1) = some req := by
+  have hk := unknown_type_rejected D buf ptype fromID hash req h
+  by_cases hs : buf.length < headSize + 1
+  · rw [packet_too_small_rejected D buf hs] at h; cases h
+  · rw [decodePacket_long D buf hs] at h
+    have e3 : headSize - macSize = sigSize := rfl
+    split at h
+    · cases h
+    · rename_i hh
+      split at h
+      · cases h
+      · rename_i fid hr
+        split at h
+        · split at h
+          · cases h
+          · rename_i r hb
+            cases h
+            exact ⟨by omega, rfl, by simpa using hh, by rw [← e3]; exact hr, rfl, hk, hb⟩
+        · cases h
+
+/-- An expired request is never handled: `handlePacket` returns `errExpired` (or an earlier decoding error) whatever
+    the type, for EVERY datagram — the expiry test is the first statement of each of the four `handle` methods. -/
+theorem expired_rejected (D : DCrypto) (nowSec : Int) (nowNsec version : Nat) (buf : Bytes) (ptype : Nat)
+    (fromID hash : Bytes) (req : Req) (h : decodePacket D buf = .ok ptype fromID hash req)
+    (he : expired req.expiration nowSec nowNsec = true) :
+    handlePacket D nowSec nowNsec version buf = .expired := by
+  unfold handlePacket; rw [h]; simp only []; rw [if_pos he]
+
+/-- …and whatever is handled was decoded, is not expired and, for a ping, carries this node's protocol version. -/
+theorem handled_packet_fresh (D : DCrypto) (nowSec : Int) (nowNsec version : Nat) (buf : Bytes) (ptype : Nat)
+    (h : handlePacket D nowSec nowNsec version buf = .handled ptype) :
+    ∃ fromID hash req, decodePacket D buf = .ok ptype fromID hash req ∧ expired req.expiration nowSec nowNsec = false ∧
+      (ptype = Gen.DiscPingPacket → req.version = version) := by
+  unfold handlePacket at h
+  split at h
+  · cases h
+  · cases h
+  · rename_i pt fid hs req hd
+    split at h
+    · cases h
+    · rename_i hne
+      split at h
+      · cases h
+      · rename_i hv
+        cases h
+        refine ⟨fid, hs, req, hd, by simpa using hne, ?_⟩
+        intro hp
+        exact Classical.byContradiction (fun hc => hv ⟨hp, hc⟩)
+
+/-- `expired` at the extremes: an expiration of 0, of 2^63 − 1 (`time.Unix` wraps), of 2^63 and of 2^64 − 1 (negative
+    `int64`) all count as expired at any time of this era; one second ahead of the clock does not. -/
+theorem expired_extremes (nowSec : Nat) (h1 : 0 < nowSec) (h2 : nowSec < 2 ^ 62) (nsec : Nat) :
+    expired 0 nowSec nsec = true ∧ expired (2 ^ 63 - 1) nowSec nsec = true ∧ expired (2 ^ 63) nowSec nsec = true ∧
+    expired (2 ^ 64 - 1) nowSec nsec = true ∧ expired (nowSec + 1) nowSec nsec = false := by
+  have e : Gen.UnixToInternal = 62135596800 := rfl
+  refine ⟨?_, ?_, ?_, ?_, ?_⟩ <;>
+    simp only [expired, toInt64, wrap64, two64, two63, e, Bool.or_eq_true, Bool.and_eq_true, decide_eq_true_eq,
+      Bool.or_eq_false_iff, Bool.and_eq_false_imp, decide_eq_false_iff_not] <;> omega
+
+/-- in the code: the first statement of every `handle` is the expiry test; `decodePacket`'s statements in order; the
+    packet-type switch; `handlePacket` returns a decoding error without calling `handle`; the read loop of the socket
+    ignores what `handlePacket` returns and goes on. -/
+theorem decodePacket_order_in_code :
+    Gen.DecodePacketShape =
+      ["if len(buf) < headSize+1 { … return nil, NodeID{}, nil, errPacketTooSmall }",
+       "hash, sig, sigdata := buf[:macSize], buf[macSize:headSize], buf[headSize:]",
+       "shouldhash := crypto.Keccak256(buf[macSize:])",
+       "if !bytes.Equal(hash, shouldhash) { … return nil, NodeID{}, nil, errBadHash }",
+       "fromID, err := recoverNodeID(crypto.Keccak256(buf[headSize:]), sig)",
+       "if err != nil { … return nil, NodeID{}, hash, err }",
+       "var req packet", "switch ptype", "err = rlp.DecodeBytes(sigdata[1:], req)", "return req, fromID, hash, err"] ∧
+    Gen.DecodePacketCases =
+      ["pingPacket: req = new(ping)", "pongPacket: req = new(pong)", "findnodePacket: req = new(findnode)",
+       "neighborsPacket: req = new(neighbors)", "default: return nil, fromID, hash, fmt.Errorf(\"unknown type: %d\", ptype)"] ∧
+    Gen.HandleFirstStatement =
+      ["ping: if expired(req.Expiration) { … return errExpired }", "pong: if expired(req.Expiration) { … return errExpired }",
+       "findnode: if expired(req.Expiration) { … return errExpired }",
+       "neighbors: if expired(req.Expiration) { … return errExpired }"] ∧
+    Gen.ExpiredShape = ["return time.Unix(int64(ts), 0).Before(time.Now())"] ∧
+    Gen.HandlePacketShape.take 2 = ["packet, fromID, hash, err := decodePacket(buf)", "if err != nil { … return err }"] ∧
+    Gen.UdpReadLoopShape = ["defer t.conn.Close()", "buf := make([]byte, 1280)", "for",
+      "nbytes, from, err := t.conn.ReadFromUDP(buf)", "if err != nil { … return }", "t.handlePacket(from, buf[:nbytes])"] := by
+  decide
+
+theorem disc_constants :
+    Gen.DiscHeadSize = Gen.DiscMacSize + Gen.DiscSigSize ∧ Gen.DiscMacSize = 32 ∧ Gen.DiscSigSize = 65 ∧
+    Gen.DiscExpirationSec = 20 ∧ Gen.DiscDatagramLimit = 1280 ∧ Gen.DiscLimitLiterals = [1280, 1, 1280] ∧
+    knownTypes = [1, 2, 3, 4] ∧ Gen.DiscMaxNeighbors ≤ Gen.DiscBucketSize := by decide
+
+/-! ### the size of a neighbors reply -/
+
+/-- `maxNeighbors` is what the stuffing loop of `init()` computes under the model's size arithmetic: with that many
+    nodes of maximal size the datagram stays below the limit, with one more it does not. -/
+theorem maxNeighbors_is_stuffing_bound :
+    stuff 100 0 = some Gen.DiscMaxNeighbors ∧
+    neighborsPacketLen (List.replicate Gen.DiscMaxNeighbors maxSizeNode) (two64 - 1) < Gen.DiscDatagramLimit ∧
+    neighborsPacketLen (List.replicate (Gen.DiscMaxNeighbors + 1) maxSizeNode) (two64 - 1) ≥ Gen.DiscDatagramLimit := by
+  decide
+
+/-- a node as the table holds it: an IP of at most 16 bytes, 16-bit ports, a 64-byte id -/
+def NodeOk (n : RpcNode) : Prop := n.ip.length ≤ 16 ∧ n.udp < 65536 ∧ n.tcp < 65536 ∧ n.id.length = Gen.DiscNodeIDBytes
+
+theorem natBytesBE_len_le (n k : Nat) (h : n < 256 ^ k) : (Codec.natBytesBE n).length ≤ k :=
+  Codec.natBytesBE_length_le n k h
+
+theorem nodeLen_le (n : RpcNode) (h : NodeOk n) : nodeLen n ≤ 91 := by
+  obtain ⟨h1, h2, h3, h4⟩ := h
+  have e : Gen.DiscNodeIDBytes = 64 := rfl
+  have a1 : rlpBytesLen n.ip ≤ 17 := by
+    unfold rlpBytesLen rlpHdrLen; split
+    · omega
+    · rw [if_pos (by omega)]; omega
+  have a2 : rlpUintLen n.udp ≤ 3 := by
+    unfold rlpUintLen; split
+    · omega
+    · have := natBytesBE_len_le n.udp 2 (by omega); omega
+  have a3 : rlpUintLen n.tcp ≤ 3 := by
+    unfold rlpUintLen; split
+    · omega
+    · have := natBytesBE_len_le n.tcp 2 (by omega); omega
+  have a4 : rlpBytesLen n.id ≤ 66 := by
+    unfold rlpBytesLen rlpHdrLen; rw [h4, e]
+    split
+    · omega
+    · have := natBytesBE_len_le 64 1 (by decide); split <;> omega
+  unfold nodeLen
+  simp only []
+  have : rlpHdrLen (rlpBytesLen n.ip + rlpUintLen n.udp + rlpUintLen n.tcp + rlpBytesLen n.id) ≤ 2 := by
+    unfold rlpHdrLen; split
+    · omega
+    · have := natBytesBE_len_le (rlpBytesLen n.ip + rlpUintLen n.udp + rlpUintLen n.tcp + rlpBytesLen n.id) 1 (by omega); omega
+  omega
+
+theorem nodesLen_le (ns : List RpcNode) (h : ∀ n ∈ ns, NodeOk n) : nodesLen ns ≤ 91 * ns.length := by
+  induction ns with
+  | nil => simp [nodesLen]
+  | cons n t ih =>
+    have := nodeLen_le n (h n (by simp))
+    have := ih (fun x hx => h x (by simp [hx]))
+    simp only [nodesLen, List.length_cons]; omega
+
+/-- A neighbors datagram with at most `maxNeighbors` nodes — any IPs of at most 16 bytes, any ports, any expiration
+    below 2^64 — is at most 1280 bytes long (it is below 1280: what `readLoop`'s buffer of the receiver holds). -/
+theorem neighbors_reply_fits (ns : List RpcNode) (exp : Nat) (h : ∀ n ∈ ns, NodeOk n) (hn : ns.length ≤ Gen.DiscMaxNeighbors)
+    (he : exp < two64) : neighborsPacketLen ns exp < Gen.DiscDatagramLimit := by
+  have e1 : Gen.DiscMaxNeighbors = 12 := rfl
+  have e2 : Gen.DiscDatagramLimit = 1280 := rfl
+  have e3 : headSize = 97 := rfl
+  have hl := nodesLen_le ns h
+  have a1 : rlpUintLen exp ≤ 9 := by
+    unfold rlpUintLen; split
+    · omega
+    · have := natBytesBE_len_le exp 8 (by unfold two64 at he; omega); omega
+  have hh : ∀ x, x < 65536 → rlpHdrLen x ≤ 3 := by
+    intro x hx
+    unfold rlpHdrLen; split
+    · omega
+    · have := natBytesBE_len_le x 2 (by omega); omega
+  unfold neighborsPacketLen neighborsLen
+  simp only []
+  have b1 := hh (nodesLen ns) (by omega)
+  have b2 := hh (rlpHdrLen (nodesLen ns) + nodesLen ns + rlpUintLen exp) (by omega)
+  omega
+
+/-- The chunking loop of `findnode.handle`: no datagram carries more than `maxNeighbors` nodes (for `maxNeighbors ≥ 1`),
+    and together the datagrams carry exactly the nodes found, in order. -/
+theorem chunks_bounded {α : Type} (maxN : Nat) (hm : 1 ≤ maxN) (closest acc : List α) (ha : acc.length < maxN) :
+    (∀ c ∈ chunkLoop maxN acc closest, c.length ≤ maxN) ∧
+    (chunkLoop maxN acc closest).flatten = (if closest = [] then [] else acc ++ closest) := by
+  induction closest generalizing acc with
+  | nil => simp [chunkLoop]
+  | cons n rest ih =>
+    unfold chunkLoop
+    simp only []
+    split
+    · rename_i hc
+      have := ih [] (by simp; omega)
+      refine ⟨?_, ?_⟩
+      · intro c hcm
+        simp only [List.mem_cons] at hcm
+        rcases hcm with rfl | hcm
+        · simp; omega
+        · exact this.1 c hcm
+      · simp only [List.flatten_cons, this.2]
+        cases rest with
+        | nil => simp
+        | cons r rs => simp
+    · rename_i hc
+      have hlen : (acc ++ [n]).length < maxN := by simp at hc ⊢; omega
+      have := ih (acc ++ [n]) hlen
+      refine ⟨this.1, ?_⟩
+      rw [this.2]
+      have hr : rest ≠ [] := fun h => hc (Or.inr h)
+      simp [hr]
+
+theorem chunk_loop_in_code : Gen.FindnodeChunkLoop =
+    ["closest := t.closest(target, bucketSize).entries", "for i, n := range closest",
+     "p.Nodes = append(p.Nodes, nodeToRPC(n))",
+     "if len(p.Nodes) == maxNeighbors || i == len(closest)-1 { … p.Nodes = p.Nodes[:0] }",
+     "then: t.send(from, neighborsPacket, p); p.Nodes = p.Nodes[:0]"] ∧
+    Gen.DiscInitShape.drop 3 =
+    ["for n := 0; ; n++", "p.Nodes = append(p.Nodes, maxSizeNode)", "size, _, err := rlp.EncodeToReader(p)",
+     "if err != nil { … panic(\"cannot encode: \" + err.Error()) }", "if headSize+size+1 >= 1280 { … break }",
+     "then: maxNeighbors = n; break"] := by decide
+
 end ZV.C15Frame
